@@ -132,3 +132,121 @@ Section Binders.
     - simpl in Hz. simpl. apply IHt; assumption.
   Qed.
 End Binders.
+
+(* ---------- the definitions of the compiled program ---------- *)
+Lemma cfind_nodup : forall defs d, NoDup (map cdname defs) -> In d defs ->
+  find (fun d' => cident_eqb (cdname d') (cdname d)) defs = Some d.
+Proof.
+  induction defs as [|d0 r IH]; intros d Hnd Hin; [contradiction|]. simpl.
+  simpl in Hnd. inversion Hnd as [|? ? Hnot Hnd']; subst.
+  destruct (cident_eqb (cdname d0) (cdname d)) eqn:E.
+  - apply cid_eqb_eq in E. destruct Hin as [Hin|Hin]; [subst; reflexivity|].
+    exfalso. apply Hnot. rewrite E. apply in_map. exact Hin.
+  - destruct Hin as [Hin|Hin]; [subst; rewrite cid_eqb_refl in E; discriminate | apply IH; assumption].
+Qed.
+
+(* every source definition is compiled (by compile_main or compile_def) and its group of Core
+   definitions is part of the result *)
+Lemma compile_defs_groups : forall lg defs codata ul front back res,
+  compile_defs lg defs codata ul front back = Ok res ->
+  (forall d, In d defs -> exists ul1 g ul2,
+     (if String.eqb (fdname d) "main" then compile_main lg d codata ul1 else compile_def lg d codata ul1) = Ok (g, ul2) /\
+     incl g res) /\
+  incl front res /\ incl back res.
+Proof.
+  intros lg. induction defs as [|d r IH]; intros codata ul front back res H; simpl in H.
+  - injection H as H. subst res. split; [intros d []|]. split.
+    + intros x Hx. apply in_or_app. left. exact Hx.
+    + intros x Hx. apply in_or_app. right. rewrite rev_append_rev, app_nil_r. apply in_rev in Hx. exact Hx.
+  - destruct (String.eqb (fdname d) "main") eqn:E.
+    + destruct (compile_main lg d codata ul) as [[g ul']|?] eqn:Em; simpl in H; [|discriminate].
+      destruct (IH _ _ _ _ _ H) as [H1 [H2 H3]]. split; [|split].
+      * intros d' [Hd|Hd]; [subst d'; rewrite E; exists ul, g, ul'; split; [exact Em|] | apply H1; exact Hd].
+        intros x Hx. apply H2. apply in_or_app. left. exact Hx.
+      * intros x Hx. apply H2. apply in_or_app. right. exact Hx.
+      * exact H3.
+    + destruct (compile_def lg d codata ul) as [[g ul']|?] eqn:Em; simpl in H; [|discriminate].
+      destruct (IH _ _ _ _ _ H) as [H1 [H2 H3]]. split; [|split].
+      * intros d' [Hd|Hd]; [subst d'; rewrite E; exists ul, g, ul'; split; [exact Em|] | apply H1; exact Hd].
+        intros x Hx. apply H3. rewrite rev_append_rev. apply in_or_app. left. apply in_rev in Hx. exact Hx.
+      * exact H2.
+      * intros x Hx. apply H3. rewrite rev_append_rev. apply in_or_app. right. exact Hx.
+Qed.
+
+Lemma find_def_in : forall p f d, ffind_def p f = Some d -> In d (fcpdefs p) /\ fdname d = f.
+Proof.
+  intros p f d H. unfold ffind_def in H. apply find_some in H. destruct H as [H1 H2].
+  apply String.eqb_eq in H2. auto.
+Qed.
+
+(* the guard of the preservation theorem, per definition and per program *)
+Definition def_guard (p : fcprog) (d : fdef) : bool :=
+  frag p (fdbody d) && ws (compile_ctx (fdctx d)) (fdbody d) && nocap (fdbody d)
+  && (if String.eqb (fdname d) "main" then data_ty p (fterm_type (fdbody d)) else true).
+Definition prog_guard (p : fcprog) : bool := forallb (def_guard p) (fcpdefs p).
+
+Section Prog.
+  Variable p : fcprog.
+  Variable c : cprog.
+  Hypothesis Hcomp : compile_prog p = Ok c.
+  Hypothesis Hnd : NoDup (map fdname (fcpdefs p)).
+  Hypothesis Hguard : prog_guard p = true.
+
+  Lemma prog_codata : cpcodata c = codata_of p.
+  Proof.
+    unfold compile_prog, compile_prog_gen in Hcomp.
+    destruct (compile_defs false (fcpdefs p) _ _ [] []) as [defs|?]; simpl in Hcomp; [|discriminate].
+    injection Hcomp as Hc. subst c. reflexivity.
+  Qed.
+
+  Lemma prog_defs : exists defs,
+    compile_defs false (fcpdefs p) (codata_of p) (map fdname (fcpdefs p)) [] [] = Ok defs /\ cpdefs c = defs.
+  Proof.
+    unfold compile_prog, compile_prog_gen in Hcomp. fold (codata_of p) in Hcomp.
+    destruct (compile_defs false (fcpdefs p) (codata_of p) _ [] []) as [defs|?] eqn:E; simpl in Hcomp; [|discriminate].
+    injection Hcomp as Hc. subst c. exists defs. auto.
+  Qed.
+
+  Lemma prog_find : forall d, In d (cpdefs c) -> cfind_def c (cdname d) = Some d.
+  Proof.
+    intros d Hd. unfold cfind_def. apply cfind_nodup; [|exact Hd].
+    apply (compile_prog_def_names_distinct p c Hcomp Hnd).
+  Qed.
+
+  Lemma guard_of : forall d, In d (fcpdefs p) -> def_guard p d = true.
+  Proof. intros d Hd. unfold prog_guard in Hguard. rewrite forallb_forall in Hguard. apply Hguard. exact Hd. Qed.
+
+  Lemma prog_callee : forall f d, ffind_def p f = Some d -> f <> "main" -> callee_ok p c d.
+  Proof.
+    intros f d Hf Hnm. destruct (find_def_in _ _ _ Hf) as [Hin Hname].
+    destruct prog_defs as [defs [Hdefs Hcd]].
+    destruct (compile_defs_groups _ _ _ _ _ _ _ Hdefs) as [Hgroups _].
+    destruct (Hgroups d Hin) as [ul1 [g [ul2 [Hc Hincl]]]].
+    assert (Em : String.eqb (fdname d) "main" = false) by (apply String.eqb_neq; congruence).
+    rewrite Em in Hc. unfold compile_def in Hc.
+    match type of Hc with context [run_def_body ?cd ?dd ?u ?k] =>
+      destruct (run_def_body cd dd u k) as [[[a body] st']|?] eqn:Eb end; simpl in Hc; [|discriminate].
+    injection Hc as Hg Hul. subst g.
+    unfold run_def_body in Eb. destruct (fterm_type (fdbody d)) as [bty|]; [|discriminate].
+    apply mbind_inv in Eb. destruct Eb as [a0 [sta [Ha Eb]]].
+    apply mbind_inv in Eb. destruct Eb as [body0 [stb [Hwc Eb]]].
+    apply mret_inv in Eb. destruct Eb as [E1 E2]. injection E1 as E1 E3. subst a0 body0 stb.
+    destruct (fresh_in_vars_inv _ _ _ _ Ha) as [Hfresh [Hused _]]. simpl in Hfresh, Hused.
+    pose proof (guard_of d Hin) as Hgd. unfold def_guard in Hgd. rewrite Em in Hgd.
+    apply andb_prop in Hgd. destruct Hgd as [Hgd _]. apply andb_prop in Hgd. destruct Hgd as [Hgd Hnc].
+    apply andb_prop in Hgd. destruct Hgd as [Hfr Hws].
+    exists a, body, sta, st', (compile_ty bty).
+    split; [exact Hwc|]. split; [rewrite Hused; left; reflexivity|].
+    split; [intros Hb; apply Hfresh; apply (bnd_used_binders p); assumption|].
+    split; [intros Hb; apply Hfresh; apply used_binders_mono; exact Hb|].
+    split; [intros x Hx; rewrite Hused; right; apply used_binders_mono; exact Hx|].
+    split; [intros x Hx; rewrite Hused; right; apply (bnd_used_binders p); assumption|].
+    split.
+    { intros d' Hd'. apply prog_find. rewrite Hcd. apply Hincl. right. exact Hd'. }
+    split.
+    { change (new_id (fdname d)) with (cdname (mkcd (new_id (fdname d))
+               (compile_ctx (fdctx d) ++ [mkcb (new_id a) CCns (compile_ty (fdret d))]) body)).
+      apply prog_find. rewrite Hcd. apply Hincl. left. reflexivity. }
+    auto.
+  Qed.
+End Prog.
